@@ -4,8 +4,8 @@ Source text only (`ast`; the repository is never imported).  `extract()` collect
 
  (i)   `Integrator.integrate`: the cache key tuple, the parameters converted with `float(...)` before anything else happens,
        the arguments handed to the two integration routines (all via gen/integrator.py's `_extract_integrate`, which fixes the
-       statement shapes of `integrate`; the leading coercion statement is recognised and stripped here), the `self.` attributes
-       and global names the routines read;
+       statement shapes of `integrate`, the leading coercion statement included), the `self.` attributes and global names the
+       routines read;
  (ii)  where `_cache` is created (instance attribute assigned a fresh dict in `__init__` / class attribute / something aliased)
        and EVERY store, in any file of the package, to `_cache`, `pulse_parametrization`, `use_lookup` and the two lookup tables;
  (iii) per gate factory: the draw script (every `np.random.normal` / `multivariate_normal` call in call order with its dimension,
@@ -18,7 +18,7 @@ Source text only (`ast`; the repository is never imported).  `extract()` collect
 Anything the extraction cannot account for raises `pyexpr.Unsupported` (the check then treats the tie as broken) or is listed
 in a table that a `decide`-theorem of QG.Props.C10 compares with the expected one.
 """
-import ast, copy, os, warnings
+import ast, os, warnings
 from qgv import core, pyexpr
 from qgv.pyexpr import Unsupported
 from gen import integrator as gi, factories as gf, gatesets as gg
@@ -51,23 +51,6 @@ def _is_doc(st):
 
 
 # ------------------------------------------------------------------------------------------------ (i) integrate
-def _coercion(st, params):
-    """`x, y = float(x), float(y)` or `x = float(x)` on parameters -> list of names, else None"""
-    if not (isinstance(st, ast.Assign) and len(st.targets) == 1):
-        return None
-    t, v = st.targets[0], st.value
-    pairs = list(zip(t.elts, v.elts)) if isinstance(t, ast.Tuple) and isinstance(v, ast.Tuple) and len(t.elts) == len(v.elts) \
-        else [(t, v)]
-    names = []
-    for tt, vv in pairs:
-        if not (isinstance(tt, ast.Name) and isinstance(vv, ast.Call) and isinstance(vv.func, ast.Name) and vv.func.id == "float"
-                and len(vv.args) == 1 and not vv.keywords and isinstance(vv.args[0], ast.Name) and vv.args[0].id == tt.id
-                and tt.id in params[2:]):
-            return None
-        names.append(tt.id)
-    return names
-
-
 def _self_reads_and_globals(fn):
     params = {a.arg for a in fn.args.args}
     local = set(params)
@@ -99,20 +82,10 @@ def _integrate_facts(tree):
     params = [a.arg for a in fn.args.args]
     if len(params) != 4 or params[0] != "self":
         raise Unsupported(f"integrate: signature changed: {params}")
-    fn2 = copy.deepcopy(fn)
-    coerced, body, code_seen = [], [], False
-    for st in fn2.body:
-        c = None if (code_seen or _is_doc(st)) else _coercion(st, params)
-        if c is not None:
-            if any(x in coerced for x in c):
-                raise Unsupported("integrate: a parameter is coerced twice")
-            coerced += c
-            continue
-        if not _is_doc(st):
-            code_seen = True
-        body.append(st)
-    fn2.body = body
-    facts = gi._extract_integrate(fn2)          # fixes the statement shapes: lookup, two asserts, dispatch, store, return
+    # gen/integrator.py fixes the statement shapes: [coercion `theta, a = float(theta), float(a)` as the very first statement,]
+    # cache lookup, two asserts, dispatch with (integrand, theta, a) in order, cache store under the same tuple, return
+    facts = gi._extract_integrate(fn)
+    coerced = [params[2], params[3]] if facts.get("coercion") else []
     pos = {p: FIELDS[i] for i, p in enumerate(params[1:])}
     out = {"params": params[1:], "key_fields": [pos[k] for k in facts["cache_key"]],
            "key_source": list(facts["cache_key"]), "coerced": [pos[c] for c in coerced], "coerced_source": coerced,
